@@ -451,6 +451,8 @@ async fn fabitn(
     // Step 2) Run 2-party OTs to compute keys and MACs [input parameters mm and kk].
 
     // Seed a faster AesRng from the shared chacha rng
+    #[cfg(feature = "__verif")]
+    crate::verif::tap("abit_rseed", i, &[u128::from_le_bytes(*multi_shared_rand.clone().random::<Block>().as_bytes())]);
     let mut aes_rand = AesRng::from_seed(multi_shared_rand.random());
     // Step 3) Verification of MACs and keys.
     // Step 3 a) Sample 3 * RHO random l'-bit strings r.
